@@ -30,6 +30,8 @@ type sEnd struct {
 	CB   []cbPolicy `json:"cb,omitempty"`   // non-empty: callback mode (no read ops in Prog)
 	// a second thread on the same end (e.g. a concurrent closer)
 	Prog2 []sOp `json:"prog2,omitempty"`
+	// callback mode: once OnData has consumed AckAt bytes in total it flushes a one-byte acknowledgement (0 = never)
+	AckAt int `json:"ack_at,omitempty"`
 }
 
 type sStream struct {
@@ -67,6 +69,7 @@ type endHist struct {
 	sentShmAfterFBWindow bool
 	closedLocallyAt int // bytes consumed by OnData when local Close was called (-1 none)
 	onDataAfterLocalClose bool
+	closedInCallback bool
 }
 
 type streamsHist struct {
@@ -81,11 +84,13 @@ type streamsHist struct {
 }
 
 type cbAdapter struct {
-	h    *streamsHist
-	e    *endHist
-	pol  []cbPolicy
-	key  uint32
-	fail func(string, ...interface{})
+	h     *streamsHist
+	e     *endHist
+	pol   []cbPolicy
+	key   uint32
+	ackAt int
+	acked bool
+	fail  func(string, ...interface{})
 }
 
 func (a *cbAdapter) OnData(reader BufferReader) {
@@ -94,7 +99,7 @@ func (a *cbAdapter) OnData(reader BufferReader) {
 	if e.inOnData > e.maxInOnData {
 		e.maxInOnData = e.inOnData
 	}
-	if e.closedLocallyAt >= 0 {
+	if atomic.LoadUint32(&e.stream.state) == uint32(streamClosed) || e.closedInCallback {
 		e.onDataAfterLocalClose = true
 	}
 	p := a.pol[e.onData%len(a.pol)]
@@ -112,11 +117,21 @@ func (a *cbAdapter) OnData(reader BufferReader) {
 		}
 		reader.ReleasePreviousRead()
 	}
+	if a.ackAt > 0 && !a.acked && len(e.read) >= a.ackAt {
+		a.acked = true
+		e.stream.BufferWriter().WriteByte(0x5a)
+		if err := e.stream.Flush(false); err != nil {
+			e.flushErrs = append(e.flushErrs, err.Error())
+		} else {
+			e.flushed = append(e.flushed, 0x5a)
+		}
+	}
 	if p.Close && !e.closeCalled {
 		e.closeCalled = true
 		e.closedLocallyAt = len(e.read)
 		err := e.stream.Close()
 		e.closeRet = append(e.closeRet, fmt.Sprint(err))
+		e.closedInCallback = true
 	}
 	e.inOnData--
 }
@@ -134,7 +149,9 @@ func (l *simListenCB) OnNewStream(s *Stream)  { l.onNew(s) }
 func (l *simListenCB) OnShutdown(reason string) {}
 
 // runStreams interprets the case under its schedule and returns the history.
-func runStreams(c streamsCase, r *runCtx) *streamsHist {
+func runStreams(c streamsCase, r *runCtx) *streamsHist { return runStreamsObs(c, r, nil) }
+
+func runStreamsObs(c streamsCase, r *runCtx, setup func(h *streamsHist)) *streamsHist {
 	w := newSimWorld(c.Cfg)
 	h := &streamsHist{w: w, obs: &schedObs{}}
 	fail := func(format string, a ...interface{}) {
@@ -171,7 +188,7 @@ func runStreams(c streamsCase, r *runCtx) *streamsHist {
 		e := h.ends[i][1]
 		e.stream = s
 		if len(c.Streams[i].S.CB) > 0 {
-			if err := s.SetCallbacks(&cbAdapter{h: h, e: e, pol: c.Streams[i].S.CB, key: s.id, fail: fail}); err != nil {
+			if err := s.SetCallbacks(&cbAdapter{h: h, e: e, pol: c.Streams[i].S.CB, key: s.id, ackAt: c.Streams[i].S.AckAt, fail: fail}); err != nil {
 				fail("SetCallbacks: %v", err)
 			}
 		}
@@ -277,6 +294,10 @@ func runStreams(c streamsCase, r *runCtx) *streamsHist {
 				}
 			case "yield":
 				vsched.Point("app.yield")
+			case "quiet":
+				// wait until nothing can move any more: readers are blocked in their wait, nothing is in flight.
+				// (Close / Session.Close racing an *active* reader of the same stream is known finding close-races-active-reader.)
+				vsched.BlockUntilQuiet()
 			}
 		}
 		eh.progDone[which] = true
@@ -291,7 +312,7 @@ func runStreams(c streamsCase, r *runCtx) *streamsHist {
 		ce := h.ends[i][0]
 		ce.stream = st
 		if len(c.Streams[i].C.CB) > 0 {
-			if err := st.SetCallbacks(&cbAdapter{h: h, e: ce, pol: c.Streams[i].C.CB, key: st.id, fail: fail}); err != nil {
+			if err := st.SetCallbacks(&cbAdapter{h: h, e: ce, pol: c.Streams[i].C.CB, key: st.id, ackAt: c.Streams[i].C.AckAt, fail: fail}); err != nil {
 				harnessFail("SetCallbacks: %v", err)
 			}
 		}
@@ -315,6 +336,9 @@ func runStreams(c streamsCase, r *runCtx) *streamsHist {
 				h.ends[i][e].progDone[1] = true
 			}
 		}
+	}
+	if setup != nil {
+		setup(h)
 	}
 	h.res = sc.Run(600000)
 	r.Count("sched_steps", sc.Steps)
@@ -351,7 +375,8 @@ func (h *streamsHist) blockedApps() []string {
 
 func stateSeqOK(states []uint32) bool {
 	// open(0) -> half-closed(2) -> closed(1), or open -> closed; never backwards
-	rank := map[uint32]int{uint32(streamOpened): 0, uint32(streamHalfClosed): 1, uint32(streamClosed): 2}
+	// (state 3 = closed locally while a callback runs, introduced by the fix of D7; it is a half-closed state)
+	rank := map[uint32]int{uint32(streamOpened): 0, uint32(streamHalfClosed): 1, 3: 1, uint32(streamClosed): 2}
 	last := -1
 	for _, s := range states {
 		rk, ok := rank[s]
